@@ -26,6 +26,10 @@ type C02Scenario struct {
 	Init   []C02Op   `json:"init"`  // subscriptions made before the tasks start
 	Tasks  [][]C02Op `json:"tasks"` // concurrent tasks
 	Yields int       `json:"yields"`
+	// Twins: every registration is a closure of one of two function literals (same code pointer, own captured
+	// uid - handlers built by a factory), so Unsubscribe(f) has several candidates and must remove exactly one,
+	// and a fired Once registration must be retired itself, not a sibling. Sub ops carry their uid in ID.
+	Twins bool `json:"twins,omitempty"`
 }
 
 type c02OpRec struct {
@@ -34,7 +38,49 @@ type c02OpRec struct {
 	Err       bool
 }
 
+func genC02Twins(rt *rapid.T) core.Scenario {
+	sc := &C02Scenario{Twins: true}
+	ty := rapid.IntRange(0, len(allTypes)-1).Draw(rt, "type0")
+	uid := 0
+	newSub := func(label string) C02Op {
+		uid++
+		fn := rapid.SampledFrom([]int{0, 0, 0, numSites}).Draw(rt, label+"Fn")
+		return C02Op{Kind: "sub", Type: ty, Fn: fn, ID: uid, Opts: SubOpts{
+			Once:  rapid.IntRange(0, 2).Draw(rt, label+"Once") == 2,
+			Async: rapid.IntRange(0, 4).Draw(rt, label+"Async") == 4,
+		}}
+	}
+	nInit := rapid.IntRange(0, 4).Draw(rt, "nInit")
+	for i := 0; i < nInit; i++ {
+		sc.Init = append(sc.Init, newSub("init"))
+	}
+	nTasks := rapid.IntRange(1, 3).Draw(rt, "nTasks")
+	id := 0
+	for ti := 0; ti < nTasks; ti++ {
+		n := rapid.IntRange(1, 6).Draw(rt, "nOps")
+		var ops []C02Op
+		for j := 0; j < n; j++ {
+			switch rapid.SampledFrom([]string{"sub", "sub", "unsub", "unsub", "pub", "pub", "pub"}).Draw(rt, "kind") {
+			case "sub":
+				ops = append(ops, newSub("op"))
+			case "unsub":
+				ops = append(ops, C02Op{Kind: "unsub", Type: ty, Fn: rapid.SampledFrom([]int{0, 0, 0, numSites}).Draw(rt, "uFn")})
+			case "pub":
+				id++
+				ops = append(ops, C02Op{Kind: "pub", Type: ty, ID: id})
+			}
+		}
+		sc.Tasks = append(sc.Tasks, ops)
+	}
+	sc.Yields = rapid.IntRange(0, 2).Draw(rt, "yields")
+	sc.Tape = core.DrawTape(rt, 400)
+	return sc
+}
+
 func genC02(rt *rapid.T) core.Scenario {
+	if rapid.IntRange(0, 3).Draw(rt, "twins") == 3 {
+		return genC02Twins(rt)
+	}
 	sc := &C02Scenario{}
 	nTypes := rapid.IntRange(1, 2).Draw(rt, "nTypes")
 	types := []int{rapid.IntRange(0, len(allTypes)-1).Draw(rt, "type0")}
@@ -122,7 +168,11 @@ func (sc *C02Scenario) Execute(t *testing.T) *core.Outcome {
 		r.Call = w.Rec.Add("call-"+op.Kind, regKey(op.Type, op.Fn), op.ID, "")
 		switch op.Kind {
 		case "sub":
-			r.Err = w.Subscribe(op.Type, op.Fn, op.Opts) != nil
+			if sc.Twins {
+				r.Err = w.SubscribeUID(op.Type, op.Fn, op.ID, op.Opts) != nil
+			} else {
+				r.Err = w.Subscribe(op.Type, op.Fn, op.Opts) != nil
+			}
 		case "unsub":
 			r.Err = allTypes[op.Type].Unsub(w, op.Fn) != nil
 		case "clear":
@@ -142,6 +192,9 @@ func (sc *C02Scenario) Execute(t *testing.T) *core.Outcome {
 		w = NewWorld()
 		w.OnInvoke = func(ti, fn, uid int, ctx context.Context, id int) {
 			k := regKey(ti, fn)
+			if sc.Twins {
+				k = uid
+			}
 			st := w.Rec.Add("enter", k, id, "")
 			if probing {
 				probeInvs = append(probeInvs, c02Inv{k, id, st})
@@ -211,6 +264,11 @@ func (sc *C02Scenario) Execute(t *testing.T) *core.Outcome {
 		return out
 	}
 
+	if sc.Twins {
+		sc.twinsOracle(out, recs, invs, probeInvs, counts)
+		out.Summary = fmt.Sprintf("twins: %d init subs, %d tasks, %d ops, %d invocations", len(sc.Init), len(sc.Tasks), len(recs), len(invs))
+		return out
+	}
 	// ---------------- oracle (the property, literally)
 	var subs, pubs, removals []*c02OpRec
 	for _, r := range recs {
@@ -346,6 +404,183 @@ func (sc *C02Scenario) Execute(t *testing.T) *core.Outcome {
 	}
 	out.Summary = fmt.Sprintf("%d init subs, %d tasks, %d ops, %d invocations", len(sc.Init), len(sc.Tasks), len(recs), len(invs))
 	return out
+}
+
+// twinsOracle: registrations that share a function are interchangeable for Unsubscribe, so the rules are
+// stated per function group and hold under every linearization: each successful Unsubscribe removes exactly
+// one registration of its function, a fired Once registration retires itself and nothing else.
+func (sc *C02Scenario) twinsOracle(out *core.Outcome, recs []*c02OpRec, invs, probeInvs []c02Inv, counts map[int]int) {
+	type reg struct {
+		r    *c02OpRec
+		once bool
+	}
+	regs := map[int]reg{} // uid -> registration
+	var subs, unsubsOK, unsubsErr, pubs []*c02OpRec
+	for _, r := range recs {
+		switch r.Op.Kind {
+		case "sub":
+			if r.Err {
+				out.V("subscribe-failed", "Subscribe of a valid handler returned an error")
+				continue
+			}
+			subs = append(subs, r)
+			regs[r.Op.ID] = reg{r, r.Op.Opts.Once}
+		case "unsub":
+			if r.Err {
+				unsubsErr = append(unsubsErr, r)
+			} else {
+				unsubsOK = append(unsubsOK, r)
+			}
+		case "pub":
+			pubs = append(pubs, r)
+		}
+	}
+	perEv := map[[2]int]int{}
+	total := map[int]int{}
+	firedInRun := map[int]bool{}
+	for _, iv := range append(append([]c02Inv{}, invs...), probeInvs...) {
+		g, ok := regs[iv.Reg]
+		if !ok {
+			out.V("phantom-handler", "a handler with uid %d ran but no such registration was made", iv.Reg)
+			continue
+		}
+		perEv[[2]int{iv.Reg, iv.Ev}]++
+		total[iv.Reg]++
+		if perEv[[2]int{iv.Reg, iv.Ev}] > 1 {
+			out.V("delivered-twice", "registration uid %d received event %d more than once", iv.Reg, iv.Ev)
+		}
+		if g.once && total[iv.Reg] > 1 {
+			out.V("once-fired-twice", "once registration uid %d ran %d times", iv.Reg, total[iv.Reg])
+		}
+	}
+	for _, iv := range invs {
+		if regs[iv.Reg].once {
+			firedInRun[iv.Reg] = true
+		}
+	}
+	fns := map[int]bool{}
+	for _, s := range subs {
+		fns[s.Op.Fn] = true
+	}
+	for _, u := range append(append([]*c02OpRec{}, unsubsOK...), unsubsErr...) {
+		fns[u.Op.Fn] = true
+	}
+	for fn := range fns {
+		nSubs, nOnce := 0, 0
+		for _, s := range subs {
+			if s.Op.Fn == fn {
+				nSubs++
+				if s.Op.Opts.Once {
+					nOnce++
+				}
+			}
+		}
+		nUnsub := 0
+		for _, u := range unsubsOK {
+			if u.Op.Fn == fn {
+				nUnsub++
+			}
+		}
+		if nUnsub > nSubs {
+			out.V("unsubscribe-count", "Unsubscribe of function f%d succeeded %d times but only %d registrations of it were ever made", fn, nUnsub, nSubs)
+		}
+		// per publish: deliveries to the persistent registrations of this function
+		for _, p := range pubs {
+			d := 0
+			for _, iv := range invs {
+				if iv.Ev == p.Op.ID && regs[iv.Reg].r != nil && regs[iv.Reg].r.Op.Fn == fn && !regs[iv.Reg].once {
+					d++
+				}
+			}
+			before, maybe := 0, 0
+			for _, s := range subs {
+				if s.Op.Fn != fn || s.Op.Opts.Once {
+					continue
+				}
+				if s.Ret < p.Call {
+					before++
+				}
+				if s.Call < p.Ret {
+					maybe++
+				}
+			}
+			unsubMaybe, unsubBefore := 0, 0
+			for _, u := range unsubsOK {
+				if u.Op.Fn != fn {
+					continue
+				}
+				if u.Call < p.Ret {
+					unsubMaybe++
+				}
+				if u.Ret < p.Call {
+					unsubBefore++
+				}
+			}
+			if lower := before - unsubMaybe; d < lower {
+				out.V("missed-delivery", "event %d reached %d persistent registrations of f%d; %d were subscribed before the publish was called and at most %d can have been removed by the %d successful Unsubscribe calls started before it returned (each removes exactly one)", p.Op.ID, d, fn, before, unsubMaybe, unsubMaybe)
+			}
+			removedForSure := unsubBefore - nOnce // unsubscribes that cannot all have hit once registrations
+			if removedForSure < 0 {
+				removedForSure = 0
+			}
+			if upper := maybe - removedForSure; d > upper {
+				out.V("delivered-after-removal", "event %d reached %d persistent registrations of f%d; at most %d can have been registered (subscribed before the publish returned, minus Unsubscribe calls completed before it was called)", p.Op.ID, d, fn, upper)
+			}
+		}
+		// an Unsubscribe may only fail if there may have been nothing of its function to remove
+		for _, u := range unsubsErr {
+			if u.Op.Fn != fn {
+				continue
+			}
+			live := 0
+			for _, s := range subs {
+				if s.Op.Fn == fn && !s.Op.Opts.Once && s.Ret < u.Call {
+					live++
+				}
+			}
+			for _, x := range unsubsOK {
+				if x.Op.Fn == fn && x.Call < u.Ret {
+					live--
+				}
+			}
+			if live > 0 {
+				out.V("unsubscribe-refused", "Unsubscribe of f%d returned an error although at least %d persistent registrations of it existed for the whole call (subscribed before it, and too few successful Unsubscribe calls to have removed them)", fn, live)
+			}
+		}
+	}
+	// quiescence: HandlerCount, then two probe publishes (all registrations are unfiltered)
+	nFired := len(firedInRun)
+	for ti, c := range counts {
+		hi := len(subs) - len(unsubsOK)
+		lo := hi - nFired
+		if c < lo || c > hi {
+			out.V("count-after-quiescence", "HandlerCount(E%02d)=%d after quiescence; %d registrations were made, %d Unsubscribe calls succeeded (one removal each) and %d once registrations fired: the count must lie in [%d,%d]", ti, c, len(subs), len(unsubsOK), nFired, lo, hi)
+		}
+		r1, r2 := map[int]bool{}, map[int]bool{}
+		for _, iv := range probeInvs {
+			if iv.Ev == 1000000 {
+				r1[iv.Reg] = true
+			} else {
+				r2[iv.Reg] = true
+			}
+		}
+		if len(r1) != c {
+			out.V("count-after-quiescence", "HandlerCount(E%02d)=%d after quiescence but the first probe event reached %d registrations (%v)", ti, c, len(r1), r1)
+		}
+		for uid := range r1 {
+			if regs[uid].once && firedInRun[uid] {
+				out.V("removed-still-registered", "once registration uid %d fired during the run and again for the probe event", uid)
+			}
+			if !regs[uid].once && !r2[uid] {
+				out.V("lost-registration", "persistent registration uid %d received the first probe event but not the second", uid)
+			}
+		}
+		for uid := range r2 {
+			if !r1[uid] || regs[uid].once {
+				out.V("removed-still-registered", "registration uid %d (once=%v) received the second probe event (first: %v)", uid, regs[uid].once, r1[uid])
+			}
+		}
+	}
 }
 
 var propC02 = &core.Property{ID: "C02", Gen: genC02, New: func() core.Scenario { return &C02Scenario{} }}
